@@ -3,7 +3,8 @@
 latest selftest results (which checks report the change)."""
 import json, os, re
 V = "/verif"
-res = json.load(open(V + "/selftest/RESULTS.json")).get("seeds", {})
+import sys
+res = json.load(open(sys.argv[1] if len(sys.argv) > 1 else V + "/selftest/RESULTS.json")).get("seeds", {})
 for s in sorted(os.listdir(V + "/seeded")):
     d = os.path.join(V, "seeded", s)
     if not os.path.isfile(d + "/patch.diff"):
@@ -30,7 +31,7 @@ for s in sorted(os.listdir(V + "/seeded")):
         "what_i_ran": [
             "tools/confirm_seed.sh in the contributor's scratch worktree: (1) cargo test --workspace --no-fail-fast --offline with the change, "
             "(2) the demonstration with the change, (3) the demonstration with the change reverted (git apply -R)",
-            "tools/selftest.py --seeds-only: patch applied to a scratch copy of /repo (never to /repo), facts rebuilt, all 20 checks run",
+            "tools/selftest.py --seeds-only [--owning-only]: patch applied to a scratch copy of /repo (never to /repo), facts rebuilt, the owning check (or all 20) run; repeated with ZVT_LOWER=1 (second representation only)",
         ],
         "confirmed": {
             "existing_suite_with_change": {"passed": suite, "failed_or_errors": suite_failed},
@@ -39,6 +40,7 @@ for s in sorted(os.listdir(V + "/seeded")):
         },
         "detected_by": {c: v["rules"] for c, v in sorted(r.get("reported_by", {}).items())},
         "detected_by_owning_property": a["property"] in r.get("reported_by", {}),
+        "declared_not_detected": os.path.exists(d + "/NOT_DETECTED.md"),
     }
     json.dump(meta, open(d + "/meta.json", "w"), indent=1)
     print(s, meta["confirmed"]["existing_suite_with_change"], meta["detected_by_owning_property"], sorted(meta["detected_by"]))
